@@ -200,13 +200,35 @@ func runCase(c c01Case) (f *vh.Failure) {
 			// flush with a cancelled context
 			cctx, ccancel := context.WithCancel(ctx)
 			ccancel()
-			for _, p := range pkgs {
-				if err := ch.QueuePackage(cctx, p); err != nil {
-					break
+			// (the caller has to be told by one of the calls; a flush that finds nothing left to
+			// send after a failed QueuePackage has nothing to report)
+			var qerr error
+			if m.SendLast {
+				// the caller gives up at the first error, as with SendPackage: no flush is
+				// attempted after a failed QueuePackage
+				for i, p := range pkgs {
+					if i == len(pkgs)-1 {
+						qerr = ch.SendPackage(cctx, p)
+					} else {
+						qerr = ch.QueuePackage(cctx, p)
+					}
+					if qerr != nil {
+						break
+					}
 				}
-			}
-			if err := ch.SendRemainingPackets(cctx); err == nil {
-				return vh.Failf("C01/cancelled-flush-succeeds", "message %d: SendRemainingPackets with a cancelled context returned nil", mi)
+				if qerr == nil {
+					return vh.Failf("C01/cancelled-flush-succeeds", "message %d: QueuePackage / SendPackage with a cancelled context all returned nil", mi)
+				}
+				vh.Label("aborted-message-without-flush")
+			} else {
+				for _, p := range pkgs {
+					if qerr = ch.QueuePackage(cctx, p); qerr != nil {
+						break
+					}
+				}
+				if err := ch.SendRemainingPackets(cctx); err == nil && qerr == nil {
+					return vh.Failf("C01/cancelled-flush-succeeds", "message %d: QueuePackage and SendRemainingPackets with a cancelled context all returned nil", mi)
+				}
 			}
 			if n := len(pipe.Written()) - off; n != 0 {
 				return vh.Failf("C01/cancelled-flush-writes", "message %d: %d bytes written although the context was cancelled before the first call", mi, n)
